@@ -45,22 +45,26 @@ def d1(chk, prog):
     chk.rule("index-kind", ".loc[a:b] needs labels with b a group's LAST label; .iloc[a:b] needs positions with b one past the end; no arithmetic on "
              "labels; no label/position or one-past/last strict comparison")
     fi = prog.fn(BYGENE)
-    problems, n = pdrules.index_kind_problems(prog, fi)
-    chk.floor("slices / comparisons typed in by_gene", n, 3)
-    seen = set()
-    for node, text in problems:
-        construct = f"{fi.qn}::{norm(node)[:70]}"
-        chk.violate("index-kind", construct, fi.loc(node), text, witness=dict(example="bins of the second chromosome carry labels 9..17 but positions 0..8; "
-                                                                                   "findings/repro_c16.py: 4 of 9 bins are yielded twice"))
-        seen.add(construct)
-    if not problems:
-        chk.ok("index-kind", f"by_gene: {n} slices / comparisons are kind-correct", where=fi.loc(), cells=n)
-    # the three yields cover: gap before a gene, the gene, the tail -- each labelled as stated
-    ys = [y for y in own_nodes(fi.node) if isinstance(y, ast.Yield) and isinstance(y.value, ast.Tuple) and len(y.value.elts) == 2]
-    labels = [norm(y.value.elts[0]) for y in ys]
-    ok = len(ys) == 3 and labels.count("params.ANTITARGET_NAME") == 2 and "gene" in labels
-    chk.decide(ok, "index-kind", "by_gene yields (Antitarget, gap) / (gene, bins) / (Antitarget, tail)", f"{fi.qn}::yield labels", fi.loc(),
-               f"expected two Antitarget-labelled yields and one gene-labelled yield, got {labels}")
+    # by_gene and the helpers of its own module it hands the partition to
+    scope, work = [fi], [fi]
+    while work:
+        f = work.pop()
+        for c in own_nodes(f.node):
+            if isinstance(c, ast.Call) and isinstance(c.func, ast.Name):
+                g = prog.maybe_fn(f"{f.mod}.{c.func.id}")
+                if g is not None and g not in scope:
+                    scope.append(g)
+                    work.append(g)
+    total = 0
+    for f in scope:
+        problems, n = pdrules.index_kind_problems(prog, f)
+        total += n
+        for node, text in problems:
+            chk.violate("index-kind", f"{f.qn}::{norm(node)[:70]}", f.loc(node), text, witness=dict(example="bins of the second chromosome carry labels 9..17 but positions 0..8; "
+                                                                                                      "findings/repro_c16.py: 4 of 9 bins are yielded twice"))
+        if not problems and n:
+            chk.ok("index-kind", f"{f.name}: {n} slices / comparisons are kind-correct", where=f.loc(), cells=n)
+    chk.floor("slices / comparisons typed in by_gene and its helpers", total, 1)
 
 
 def d1b(chk, prog):
